@@ -582,7 +582,14 @@ pub fn explore_c0405(prop: &str, unit_seed: u64, tier: Tier) -> UnitReport {
     rep.count(&format!("family:{fam_name}"));
     rep.count(&format!("truth:{}", truth.tag()));
     rep.mix(&format!("{mh:x}"));
-    let runs = c0405_runs(&m, &mut rng, &mut rep);
+    let mut runs = c0405_runs(&m, &mut rng, &mut rep);
+    // triage aid (never set by the registered commands): look at one back-end only
+    if let Ok(focus) = std::env::var("VERIF_FOCUS") {
+        runs.retain(|r| {
+            r.entry.name().to_lowercase().contains(&focus.to_lowercase())
+                || (r.entry == Entry::SlowSimplex && r.sched == Sched::Frozen)
+        });
+    }
     let case = SolverCase {
         prop: prop.to_string(),
         model: m.clone(),
